@@ -141,7 +141,9 @@ fn run_f64(k: Kind, xs: &[f64], out: &mut TrialOut) {
             let (g, l) = ow::gains_losses(&xq, t, n);
             (g + l).f()
         });
-        let env = 64.0 * f64::EPSILON * (t + 1) as f64 * big;
+        // (second term: in the subnormal range rounding is absolute, half a unit of 2^-1074 per
+        // operation - Rsi's G/N and L/N round there, MyRSI's sums do not)
+        let env = 64.0 * f64::EPSILON * (t + 1) as f64 * big + 64.0 * n as f64 * 5e-324;
         if let (Some(a), Ex::Val(e)) = (got, refs[t]) {
             if !(gl > 1e3 * env) {
                 out.count("f64_steps_skipped_G+L_below_rounding_envelope", 1);
@@ -200,7 +202,18 @@ impl Monitor for C05 {
         let rep = idx / (2 * nl.len() * CLASSES.len()) as u64;
         let exact = rep % 2 == 0;
         let len = if exact { (4 * n + 40).min(300) } else { (6 * n + 60).max(cfg.tier.pick(300, 1500)) };
-        let xs = gen::gen(class, n, len, &mut rng);
+        let mut xs = gen::gen(class, n, len, &mut rng);
+        // one f64 trial in six is quoted in tiny units: the generated values are multiples of 2^-10
+        // below 2^15, so that times 2^-1064 / 2^-1040 every value, change and sum of changes is a
+        // subnormal number computed without rounding (times 2^-1010: normal values, subnormal
+        // changes); G/(G+L) is then the same quotient as at ordinary scale
+        if !exact && rng.chance(1, 6) {
+            let s = *rng.pick(&[-1064, -1040, -1010]);
+            for x in xs.iter_mut() {
+                *x *= 2f64.powi(s / 2) * 2f64.powi(s - s / 2);
+            }
+            out.count("f64_trials_in_subnormal_units", 1);
+        }
         out.key(mix(hash_str(&format!("{:?}{}", k, exact)), gen::hash_f64s(&xs)));
         if idx % 131 == 0 {
             out.sample(format!("{} at {} on {:?}: {} values, first {:?}", Spec::leaf(k).show(), if exact { "Xq" } else { "f64" }, class, xs.len(), &xs[..xs.len().min(10)]));
